@@ -188,7 +188,9 @@ static const wpk WL0[] = { { 1, 60, 100, 0, A_SRV }, { 0, 1100, 150, 0, A_CLA },
 	{ 1, 6000, 3200, 0, A_SRV }, { 0, 6000, 3300, 0, A_CLA }, { 1, 100, 3600, 0, A_SRV }, { 0, 100, 3700, 0, A_CLA } };
 static const wpk WL1[] = { { 1, 1100, 100, 0, A_SRV }, { 1, 1100, 110, 0, A_SRV }, { 0, 1100, 120, 0, A_CLA }, { 0, 1100, 121, 0, A_CLA }, { 0, 1100, 122, 0, A_CLA }, { 0, 60, 123, 0, A_CLA },
 	{ 0, 60, 124, 0, A_CLA }, { 0, 60, 125, 0, A_CLA }, { 1, 1, 2500, 0, A_SRV }, { 1, 4000, 3000, 0, A_SRV }, { 0, 4000, 3500, 0, A_CLA }, { 1, 20, 6000, 0, A_SRV } };
-static const wpk WL2[] = { { 1, 700, 100, 0, A_CLB }, { 2, 300, 200, 0, A_CLA }, { 0, 500, 300, 0, A_CLB }, { 1, 64, 900, 1, A_SRV }, { 2, 1100, 1000, 0, A_SRV }, { 0, 64, 1100, 0, A_OUT } };
+static const wpk WL2[] = { { 1, 700, 100, 0, A_CLB }, { 2, 300, 200, 0, A_CLA }, { 0, 500, 300, 0, A_CLB }, { 1, 64, 900, 1, A_SRV }, { 2, 1100, 1000, 0, A_SRV }, { 0, 64, 1100, 0, A_OUT },
+	/* client-to-client packets that arrive while the receiving session has a downstream packet in flight (they wait in its queue) */
+	{ 0, 3000, 2000, 0, A_CLB }, { 1, 300, 2002, 0, A_CLB }, { 1, 64, 2004, 1, A_CLB }, { 0, 3000, 2500, 0, A_CLA }, { 2, 300, 2502, 0, A_CLA }, { 0, 80, 2504, 0, A_CLA } };
 /* C02 clean path: four per direction, back-to-back and spaced, all sizes that fit 16 fragments in most cells */
 static const wpk WL3[] = { { 1, 40, 100, 0, A_SRV }, { 1, 300, 101, 0, A_SRV }, { 0, 40, 102, 0, A_CLA }, { 0, 300, 103, 0, A_CLA }, { 1, 64, 2000, 1, A_SRV }, { 0, 64, 2100, 1, A_CLA },
 	{ 1, 500, 4000, 0, A_SRV }, { 0, 500, 4001, 0, A_CLA } };
@@ -196,7 +198,7 @@ static const wpk WL3[] = { { 1, 40, 100, 0, A_SRV }, { 1, 300, 101, 0, A_SRV }, 
 static const wpk WL5[] = { { 1, 1100, 100, 0, A_SRV }, { 0, 1100, 100, 0, A_CLA }, { 1, 60, 4000, 0, A_SRV }, { 0, 60, 4100, 0, A_CLA }, { 1, 1100, 7000, 0, A_SRV }, { 0, 1100, 7001, 0, A_CLA } };
 /* C16: multi-fragment packets both ways so that a double append or a double ack would land in mid-packet */
 static const wpk WL6[] = { { 1, 700, 100, 0, A_SRV }, { 0, 700, 150, 0, A_CLA }, { 1, 300, 1200, 0, A_SRV }, { 0, 300, 1250, 0, A_CLA }, { 1, 200, 5000, 0, A_SRV }, { 0, 200, 5050, 0, A_CLA } };
-static const struct { const wpk *p; int n; } WLS[7] = { { WL0, 14 }, { WL1, 12 }, { WL2, 6 }, { WL3, 8 }, { WL0, 0 }, { WL5, 6 }, { WL6, 6 } };
+static const struct { const wpk *p; int n; } WLS[7] = { { WL0, 14 }, { WL1, 12 }, { WL2, 12 }, { WL3, 8 }, { WL0, 0 }, { WL5, 6 }, { WL6, 6 } };
 
 static int up_chunk_cap, down_frag_cap;
 static int WL_MUST[NS_MAXPK];   /* bytes per upstream query / downstream fragment in this cell */
@@ -491,13 +493,24 @@ static void mark_must(const cell *c)
 #define RC_SIZE 120
 #define RC_BIG 400              /* every third packet: several fragments in most cells */
 static struct { int side; int64_t at; } OFFER[NS_MAXPK]; static int noffer;
-static int64_t burst_from, burst_to; static int burst_dir;     /* 1 = client->server, 2 = server->client, 3 = both */
+static int64_t burst_from, burst_to; static int burst_dir, burst_kind;     /* dir: 1 = client->server, 2 = server->client, 3 = both */
+enum { BK_DROP, BK_DUP, BK_DUPNEWID, BK_REORDER, BK_LATE5S };          /* what happens to every datagram of the affected direction(s) during the window */
+static const char *BKN[] = { "dropped", "delivered twice", "repeated with a fresh id", "delayed 1.2 s every other one (reordered)", "delayed 5 s" };
+static int burst_parity;
 static int burst_fate(int d, int to_server)
 {
-	if (W.now >= burst_from && W.now < burst_to && ((to_server && (burst_dir & 1)) || (!to_server && (burst_dir & 2)))) { vw_dgram_free(d); ns_fatecount[F_DROP]++; return 1; }
-	return 0;
+	(void)d;
+	if (!(W.now >= burst_from && W.now < burst_to && ((to_server && (burst_dir & 1)) || (!to_server && (burst_dir & 2))))) return -1;
+	switch (burst_kind) {
+	case BK_DROP: return F_DROP;
+	case BK_DUP: return F_DUP;
+	case BK_DUPNEWID: return F_DUPNEWID;
+	case BK_REORDER: return (burst_parity++ & 1) ? F_ONTIME : F_LATE1S;
+	case BK_LATE5S: return F_LATE5S;
+	}
+	return -1;
 }
-static const struct { int dir; int start_ms; int dur_ms; } BURSTS[] = {
+static const struct { int dir; int start_ms; int dur_ms; int kind; } BURSTS[] = {
 	{ 0, 0, 0 },
 	{ 1, 2000, 3000 }, { 2, 2000, 3000 }, { 3, 2000, 3000 }, { 1, 5300, 8000 }, { 2, 5300, 8000 }, { 3, 5300, 8000 },
 	{ 1, 2100, 14000 }, { 2, 2100, 14000 }, { 3, 2100, 14000 }, { 2, 9700, 12000 }, { 1, 9700, 12000 },
@@ -508,14 +521,19 @@ static const struct { int dir; int start_ms; int dur_ms; } BURSTS[] = {
 	{ 1, 2538, 6000 }, { 1, 2541, 6000 }, { 1, 2544, 6000 }, { 1, 2547, 6000 }, { 1, 2553, 6000 }, { 1, 2565, 6000 },
 	/* and in the middle of a multi-fragment downstream packet (400 bytes offered on the server's tun at t0+3.1 s) */
 	{ 1, 3101, 6000 }, { 1, 3104, 6000 }, { 1, 3107, 6000 }, { 1, 3113, 6000 }, { 2, 3101, 6000 }, { 2, 3104, 6000 }, { 2, 3107, 6000 }, { 2, 3113, 6000 },
+	/* trouble other than loss: every datagram of the window duplicated / repeated with a fresh id / reordered / delayed */
+	{ 1, 2100, 8000, BK_DUP }, { 2, 2100, 8000, BK_DUP }, { 3, 2100, 25000, BK_DUP },
+	{ 1, 2100, 8000, BK_DUPNEWID }, { 3, 2100, 25000, BK_DUPNEWID },
+	{ 1, 2100, 8000, BK_REORDER }, { 2, 2100, 8000, BK_REORDER }, { 3, 2100, 25000, BK_REORDER }, { 3, 2540, 8000, BK_REORDER },
+	{ 1, 2100, 8000, BK_LATE5S }, { 2, 2100, 8000, BK_LATE5S }, { 3, 2100, 25000, BK_LATE5S }, { 3, 2540, 8000, BK_LATE5S },
 };
 #define NBURSTS ((int)(sizeof BURSTS / sizeof BURSTS[0]))
 
 static void recovery_eval(const char *desc, int bi, int64_t t0)
 {
 	int64_t win_from = (bi ? burst_to : t0) + (int64_t)(bi ? RC_B_S : 5) * 1000000, win_to = t0 + (int64_t)(RC_TOTAL_S - RC_L_S) * 1000000;
-	char bd[100];
-	if (bi) snprintf(bd, sizeof bd, "%s dropped for %.1f s from t0+%.1f s", BURSTS[bi].dir == 1 ? "all queries" : BURSTS[bi].dir == 2 ? "all answers" : "all datagrams", BURSTS[bi].dur_ms / 1e3, BURSTS[bi].start_ms / 1e3);
+	char bd[160];
+	if (bi) snprintf(bd, sizeof bd, "%s %s for %.1f s from t0+%.1f s", BURSTS[bi].dir == 1 ? "all queries" : BURSTS[bi].dir == 2 ? "all answers" : "all datagrams", BKN[BURSTS[bi].kind], BURSTS[bi].dur_ms / 1e3, BURSTS[bi].start_ms / 1e3);
 	else snprintf(bd, sizeof bd, "no outage");
 	xp_count(K_RC_RUNS, 1);
 	if (!vw_alive(0) || !vw_alive(1)) { viol("program-ended-after-outage", "%s; %s: %s is no longer running at t0+%d s", desc, bd, !vw_alive(0) ? "the server" : "the client", RC_TOTAL_S); return; }
@@ -557,7 +575,7 @@ static void run_recovery_cell(const cell *c, const char *desc)
 			OFFER[tag].side = side; OFFER[tag].at = at;
 			vw_tun_offer_at(side ? ns_cli_tun[1] : ns_srv_tun, at, p, n, tag);
 		}
-	ns_extra_fate = burst_fate;
+	ns_force_fate = burst_fate;
 	int clean_ok = 1;
 	for (int bi = 0; bi < NBURSTS; bi++) {
 		if (bi && !clean_ok) break;
@@ -571,7 +589,7 @@ static void run_recovery_cell(const cell *c, const char *desc)
 		}
 		if (xp_fork_wait() != 0) continue;
 		XC.path[0].cp = 0; XC.path[0].alt = bi; XC.npath = 1;
-		burst_dir = BURSTS[bi].dir; burst_from = t0 + (int64_t)BURSTS[bi].start_ms * 1000; burst_to = burst_from + (int64_t)BURSTS[bi].dur_ms * 1000;
+		burst_dir = BURSTS[bi].dir; burst_kind = BURSTS[bi].kind; burst_parity = 0; burst_from = t0 + (int64_t)BURSTS[bi].start_ms * 1000; burst_to = burst_from + (int64_t)BURSTS[bi].dur_ms * 1000;
 		run_to_horizon(t0 + (int64_t)RC_TOTAL_S * 1000000, 2000000);
 		recovery_eval(desc, bi, t0);
 		__atomic_fetch_add(&XS->execs, 1, __ATOMIC_RELAXED);
@@ -619,8 +637,8 @@ static void run_cell(int job)
 				OFFER[tag].side = side; OFFER[tag].at = at;
 				vw_tun_offer_at(side ? ns_cli_tun[1] : ns_srv_tun, at, p, n, tag);
 			}
-			ns_extra_fate = burst_fate;
-			burst_dir = BURSTS[bi].dir; burst_from = t0 + (int64_t)BURSTS[bi].start_ms * 1000; burst_to = burst_from + (int64_t)BURSTS[bi].dur_ms * 1000;
+			ns_force_fate = burst_fate;
+			burst_dir = BURSTS[bi].dir; burst_kind = BURSTS[bi].kind; burst_parity = 0; burst_from = t0 + (int64_t)BURSTS[bi].start_ms * 1000; burst_to = burst_from + (int64_t)BURSTS[bi].dur_ms * 1000;
 			run_to_horizon(t0 + (int64_t)RC_TOTAL_S * 1000000, 2000000);
 			recovery_eval(desc, bi, t0);
 			return;
